@@ -230,6 +230,23 @@ func c20CheckTree(src string, ns []Node, defined map[string]bool) (vs []ev.V) {
 			vs = append(vs, ev.Vf(sig, f, a...))
 		}
 	}
+	// A reference counts as left over only if the file has it written out below the defining line, and no macro value
+	// can supply a piece of reference syntax: "$(m1) = )" and "A $(hostname$(m1)0" give "$(hostname)0", text that an
+	// expansion resulted in - expansion is one pass, what it results in is not a reference that "remains".
+	written := map[string]bool{}
+	rest := ""
+	if i := strings.IndexByte(src, '\n'); i >= 0 {
+		rest = src[i+1:]
+	}
+	pieces := false
+	for _, line := range strings.Split(src, "\n") {
+		if eq := strings.Index(line, "="); eq >= 0 && strings.HasPrefix(strings.TrimSpace(line), "$(") && strings.ContainsAny(line[eq+1:], "$()") {
+			pieces = true
+		}
+	}
+	for name := range defined {
+		written["$("+name+")"] = !pieces && strings.Contains(rest, "$("+name+")")
+	}
 	walk = func(ns []Node, depth int) {
 		for _, n := range ns {
 			if n.Macro {
@@ -245,11 +262,11 @@ func c20CheckTree(src string, ns []Node, defined map[string]bool) (vs []ev.V) {
 				add("tree:bad-name", "directive name %q violates the documented rule", n.Name)
 			}
 			for _, a := range n.Args {
-				if strings.HasPrefix(a, "$(") && strings.HasSuffix(a, ")") && defined[a[2:len(a)-1]] {
+				if strings.HasPrefix(a, "$(") && strings.HasSuffix(a, ")") && defined[a[2:len(a)-1]] && written["$("+a[2:len(a)-1]+")"] {
 					add("tree:macro-ref-left", "argument %q is an unexpanded reference to a macro defined earlier in the file", a)
 				}
 				for name := range defined {
-					if strings.Contains(a, "$("+name+")") && a != "$("+name+")" {
+					if strings.Contains(a, "$("+name+")") && a != "$("+name+")" && written["$("+name+")"] {
 						add("tree:macro-ref-left:in-string", "argument %q still holds a reference to macro %q, which is defined in the first line of the file", a, name)
 					}
 				}
